@@ -226,8 +226,19 @@ def solve_triangular_stub(a, b, trans=0, lower=False, unit_diagonal=False, overw
     if unit_diagonal:
         raise ModelGap("unit_diagonal not modelled")
     c = sym.ctx()
+    # solve_triangular is a function of its inputs: the same (triangle, rhs) terms give the same x
+    tr_ = trans in (1, 2, "T", "C")
+    sig = (bool(lower), tr_) + tuple(sym.term(a[i, j]).hash() for i in range(n) for j in range(n) if ((j <= i) if lower else (j >= i))) + tuple(sym.term(v).hash() for v in b)
+    cache = getattr(c, "_tri_cache", None)
+    if cache is None:
+        cache = c._tri_cache = {}
+    if sig in cache:
+        out = np.empty(n, dtype=object)
+        out[:] = cache[sig]
+        return out.view(SymArr)
     c._tri = getattr(c, "_tri", 0) + 1
     xs = [SymReal(z3.Real(f"tri{c._tri}_x{i}")) for i in range(n)]
+    cache[sig] = xs
     tr = trans in (1, 2, "T", "C")
     for i in range(n):
         acc = 0
